@@ -1,9 +1,14 @@
+mod child;
 mod findings;
 mod guard;
 mod props;
 mod refvm;
 mod report;
+mod vmrun;
 mod world;
+
+#[global_allocator]
+static ALLOC: child::CountingAlloc = child::CountingAlloc;
 
 use report::Run;
 
@@ -16,6 +21,15 @@ fn main() {
     let args: Vec<String> = std::env::args().collect();
     if args.len() < 2 {
         usage();
+    }
+    if args[1] == "__child" {
+        child::apply_limits();
+        child::enable_counting();
+        match args.get(2).map(|s| s.as_str()) {
+            Some("vm") => props::c11::child_main(&args[3..]),
+            _ => std::process::exit(2),
+        }
+        return;
     }
     let id = args[1].clone();
     let mut tier = std::env::var("VERIF_TIER").unwrap_or_else(|_| "quick".into());
@@ -50,6 +64,8 @@ fn main() {
         };
         let case = &body["replay"];
         match id.as_str() {
+            "C10" => props::c10::replay(&run, case),
+            "C11" => props::c11::replay(&run, case),
             "C12" => props::c12::replay(&run, case),
             "C17" => props::c17::replay(&run, case),
             _ => {
@@ -64,6 +80,8 @@ fn main() {
         std::process::exit(if n > 0 { 1 } else { 0 });
     }
     match id.as_str() {
+        "C10" => props::c10::run(&run),
+        "C11" => props::c11::run(&run),
         "C12" => props::c12::run(&run),
         "C14" => props::c14::run(&run),
         "C17" => props::c17::run(&run),
